@@ -60,7 +60,7 @@ func (s *Sched) hashEvent(tid int, tag uint64, vc vclock) {
 
 // event records an operation of thread t on obj.
 func (s *Sched) event(t *Thread, obj unsafe.Pointer, write bool, tag uint64) {
-	if t == nil {
+	if t == nil || s.cfg.StateHash != nil {
 		return
 	}
 	idx := t.ID + 1
@@ -95,6 +95,9 @@ func (s *Sched) event(t *Thread, obj unsafe.Pointer, write bool, tag uint64) {
 
 // barrier records a scheduler event that synchronises with every thread.
 func (s *Sched) barrier(tag uint64) {
+	if s.cfg.StateHash != nil {
+		return
+	}
 	g := s.gvc
 	for _, t := range s.threads {
 		if !t.done {
